@@ -126,6 +126,14 @@ CHECKS.update({
             "DESIGN.md §2 C13"),
 })
 
+CHECKS.update({
+    "C19": ("exploration",
+            "per-node parsed command logs, getaddrinfo log and socket ledger of a multi-server FakeNet whose configuration endpoint is the ground truth for the advertised list",
+            "The real AWSElastiCacheHashClient is constructed and reconfigured against a reference endpoint answering 'config get cluster' over a universe of 6 nodes with distinct host names, IPs and ports: all sequences of up to 2 (3 thorough) reconfigurations over 9 node lists (scale-up, scale-down, replace, reorder), use_vpc on/off, pooling on/off, a node failing before the list changes, the discovery reply delivered whole / in single bytes / cut at every position / inside the end token. After every step a 400-key corpus is routed: every key must reach exactly one advertised node through the advertised IP or host name and port, no key may raise, every advertised node must get keys, no connection to a de-advertised node may stay open (also 250 s later, so that dead-server revival cannot bring one back); an endpoint answering ERROR must raise MemcacheUnknownCommandError.",
+            "Trusts the documented reply format of the configuration endpoint; balance demanded only as 'at least one of 400 keys per node'.",
+            "DESIGN.md §2 C19"),
+})
+
 NOT_YET = "check not built yet in this round (runtime-monitoring design in DESIGN.md §2); will be claimed once its monitor exists"
 
 manifest = {
